@@ -24,26 +24,37 @@ structure Dec where
   expNeg : Bool
   exp : Nat
 
+/-- optional sign -/
+def splitSign (lex : Bytes) : Bool × Bytes :=
+  match lex with
+  | 45 :: t => (true, t)
+  | 43 :: t => (false, t)
+  | _ => (false, lex)
+
+/-- optional fraction: the digits after a `.` and what follows them -/
+def splitFrac (s : Bytes) : Bytes × Bytes :=
+  match s with
+  | 46 :: t => (t.takeWhile isDigit, t.dropWhile isDigit)
+  | _ => ([], s)
+
+/-- optional exponent: its sign and digits -/
+def splitExp (s : Bytes) : Bool × Bytes :=
+  match s with
+  | c :: t =>
+    if c = 101 ∨ c = 69 then
+      match t with
+      | 45 :: u => (true, u.takeWhile isDigit)
+      | 43 :: u => (false, u.takeWhile isDigit)
+      | _ => (false, t.takeWhile isDigit)
+    else (false, [])
+  | [] => (false, [])
+
 def parseDec (lex : Bytes) : Dec :=
-  let (neg, s) := match lex with
-    | 45 :: t => (true, t)
-    | 43 :: t => (false, t)
-    | _ => (false, lex)
-  let ip := s.takeWhile isDigit
-  let s := s.dropWhile isDigit
-  let (fp, s) := match s with
-    | 46 :: t => (t.takeWhile isDigit, t.dropWhile isDigit)
-    | _ => ([], s)
-  let (eneg, ed) := match s with
-    | c :: t =>
-      if c = 101 ∨ c = 69 then
-        match t with
-        | 45 :: u => (true, u.takeWhile isDigit)
-        | 43 :: u => (false, u.takeWhile isDigit)
-        | _ => (false, t.takeWhile isDigit)
-      else (false, [])
-    | [] => (false, [])
-  { neg := neg, mant := digitsVal (ip ++ fp), fracLen := fp.length, expNeg := eneg, exp := digitsVal ed }
+  let r := splitSign lex
+  let ip := r.2.takeWhile isDigit
+  let f := splitFrac (r.2.dropWhile isDigit)
+  let e := splitExp f.2
+  { neg := r.1, mant := digitsVal (ip ++ f.1), fracLen := f.1.length, expNeg := e.1, exp := digitsVal e.2 }
 
 /-- number of decimal digits of a positive natural (0 for 0) -/
 def decLen (n : Nat) : Nat := if n = 0 then 0 else (Nat.toDigits 10 n).length
